@@ -341,6 +341,35 @@ def main_c23(run):
                           f"{val[0]['v'] if st == 'ok' and val else ''}", {"text": t})
         else:
             run.cov["traces_validated_against_impl"] += 1
+    # longer delimiters, with content that holds beginnings of the closing delimiter: built so that the text is
+    # #[D[ content ]D] with no earlier closing; the spec (TLC file mode) and the reader must both read `content`
+    import itertools
+    br_pieces = ["]", "a", "b", "]a", "]a]", "]ab", "=", "x", "]]", "\n", "[", "a]"]
+    btexts = {}
+    for delim in ("", "a", "ab", "aa", "aba", "=="):
+        close = "]" + delim + "]"
+        combos = list(itertools.product(br_pieces, repeat=2)) + [(a,) for a in br_pieces]
+        combos += [tuple(rng.choice(br_pieces) for _ in range(rng.randint(3, 5))) for _ in range(60 if q else 1500)]
+        for c in combos:
+            content = "".join(c)
+            if (content + close).index(close) != len(content):
+                continue        # the content itself closes the string earlier
+            btexts["#[" + delim + "[" + content + close] = (delim, content[1:] if content.startswith("\n") else content)
+    recs, acc, unk, says = file_validate(run, list(btexts), "bracket-long")
+    for i, rc in enumerate(recs, 1):
+        t = "".join(rc["text"])
+        delim, content = btexts[t]
+        run.case(t)
+        nbr += 1
+        sp = says[i]
+        if sp["st"] != "ok" or len(sp["ch"]) != 1 or "".join(sp["ch"][0]["v"]) != content or "".join(sp["ch"][0]["x"][1:]) != delim:
+            raise MachineryError(f"the specification does not read {t!r} as the bracket string {content!r} / {delim!r}: {sp}")
+        st, val = rc["_real"], rc["_models"]
+        if st != "ok" or len(val) != 1 or val[0]["t"] != "str" or val[0]["v"][1] != content or "".join(val[0]["x"][1:]) != delim:
+            run.violation("bracket:" + t, f"{t!r} should read as {content!r} (delimiter {delim!r}); got {st} "
+                          f"{[(m['t'], m['v']) for m in val] if st == 'ok' else ''}", {"text": t})
+        else:
+            run.cov["traces_validated_against_impl"] += 1
     run.cov["bracket_strings"] = nbr
     run.sample({"text": 'b"\\x41\\n"', "python": repr(python_literal("b", "\\x41\\n"))})
     run.sample({"text": "#[d[a]]d]", "content": "a]"})
@@ -519,9 +548,11 @@ def main_c24(run):
     # evaluation against the equivalent Python f-string
     cases = []
     # every combination of expression kind x "=" debugging x conversion x format spec, one field each
-    for he, pe in (("x", "x"), ("y", "y"), ("lst", "lst"), ("(+ x 1)", "(x + 1)")):
+    # (the last four are spelled the same in both languages, so their = debugging text can be compared too)
+    for he, pe in (("x", "x"), ("y", "y"), ("lst", "lst"), ("(+ x 1)", "(x + 1)"), ('f"<{x}>"', 'f"<{x}>"'),
+                   ('f"{x}{y !r}"', 'f"{x}{y !r}"'), ("x.real", "x.real"), ("[x]", "[x]")):
         for dbg in (False, True):
-            if dbg and not he.isalpha():
+            if dbg and he != pe:
                 continue
             for conv in ("", "!r", "!s", "!a"):
                 for spec in (None, "", ">5", "s", "{w}", "03d"):
